@@ -259,13 +259,23 @@ def _value_const_ints(val: Optional[ir.Value]) -> Optional[Tuple[int, ...]]:
 
 
 def _shapes_compatible(a: Optional[ir.Value], b: Optional[ir.Value]) -> bool:
-    ta, tb = _shape_tuple(a), _shape_tuple(b)
-    if ta is None or tb is None or len(ta) != len(tb):
+    if a is None or b is None:
         return False
-    for da, db in zip(ta, tb):
-        if da == -1 or db == -1:
+    dims_a, dims_b = _shape_dims_seq(a.shape), _shape_dims_seq(b.shape)
+    if dims_a is None or dims_b is None or len(dims_a) != len(dims_b):
+        return False
+    for da, db in zip(dims_a, dims_b):
+        if isinstance(da, (int, np.integer)) and isinstance(db, (int, np.integer)):
+            if int(da) != int(db):
+                return False
             continue
-        if da != db:
+        # Non-integer dims are equal only when they are the same named
+        # symbol; an unknown dim, or two different symbols, proves nothing.
+        name_a = getattr(da, "value", da)
+        name_b = getattr(db, "value", db)
+        if not isinstance(name_a, str) or not isinstance(name_b, str):
+            return False
+        if name_a != name_b:
             return False
     return True
 
